@@ -75,8 +75,18 @@ pub fn check_formula(ctx: &NetCtx, f: &F, ck: Checks, expected: Option<&[Mask]>)
             }
         }
     };
+    // the same formula written with the fewest parentheses the documented grammar allows (users do not write
+    // canonical texts); used only when the reference parser maps the text back to this very formula
+    let minimal = {
+        let m = crate::style::render_minimal(f, &ctx.user, &[]);
+        let ok = m != text && matches!(crate::refparser::parse_str(&m, true), Ok(t) if crate::formulas::from_t(&t, &ctx.user).as_ref() == Some(f));
+        if ok { Some(m) } else { None }
+    };
     match ck.entries {
         Entries::Plain4 => {
+            if let Some(m) = &minimal {
+                handle("model_check_formula_dirty on the minimal-parentheses text", ctx.formula_dirty(m), false);
+            }
             handle("model_check_formula_dirty", ctx.formula_dirty(&text), false);
             handle("model_check_formula", ctx.formula(&text), true);
             handle("model_check_tree_dirty", ctx.tree_dirty(f), false);
@@ -86,6 +96,9 @@ pub fn check_formula(ctx: &NetCtx, f: &F, ck: Checks, expected: Option<&[Mask]>)
             handle("model_check_formula_dirty", ctx.formula_dirty(&text), false);
         }
         Entries::Ext2 => {
+            if let Some(m) = &minimal {
+                handle("model_check_extended_formula_dirty on the minimal-parentheses text", ctx.ext_dirty(m), false);
+            }
             handle("model_check_extended_formula_dirty", ctx.ext_dirty(&text), false);
             handle("model_check_extended_formula", ctx.ext(&text), true);
         }
